@@ -24,6 +24,8 @@ SPEC = {
                   "(watchdog), the thorough tier additionally concurrent Subscribe/notify/end under -race (tests). Go map iteration order across different subscribers is not modelled (each subscriber's own channel is).",
     "drivers": [
         {"pkg": "internal/netstate", "test": "TestVerifC19", "timeout": {"quick": 300, "thorough": 900}},
+        # the real rtnetlink receive loop on a veth pair (root only; tagged unavailable otherwise)
+        {"pkg": "internal/netstate", "test": "TestVerifC19RealOS", "timeout": 300},
         {"pkg": "internal/netstate", "test": "TestVerifC19Race", "timeout": 900, "race": True, "tiers": ["thorough"]},
     ],
     "rule": "each case is a script run on a fresh real Watcher with the watch hook injected: (1) every one of the 127 masks x 7 "
